@@ -1,4 +1,5 @@
 import IrefVerif.Lemmas.PctBytes
+import IrefVerif.Lemmas.PctAlgebra
 import IrefVerif.Lemmas.PctChars
 import IrefVerif.Lemmas.Utf8Enc
 import IrefVerif.Findings
@@ -74,6 +75,34 @@ theorem eq_decoded_text (x : Text) (w : List Nat) (hw : wellEscaped x = true)
   unfold chars
   rw [charsFuel_spec _ x w (Nat.lt_succ_self _) hw hd]
   exact eqLoop_refl_ch w
+
+/-! ## "each %XX replaced by that octet", as equations -/
+
+/-- an escape decodes to its octet, whatever follows -/
+theorem octets_escape (a b x y : Nat) (t : Text) (ha : hexVal a = some x) (hb : hexVal b = some y) :
+    pctDecode (cPct :: a :: b :: t) = (16 * x + y) :: pctDecode t := pctDecode_escape a b x y t ha hb
+
+/-- any other character is kept -/
+theorem octets_plain (c : Nat) (t : Text) (h : (c == cPct) = false) :
+    pctDecode (c :: t) = c :: pctDecode t := pctDecode_plain c t h
+
+/-- **the octet view of a component does not depend on what follows it**: decoding distributes
+over concatenation behind a well-escaped text, and the implementation's `bytes()` of the
+concatenation of two well-escaped texts is the concatenation of their octets -/
+theorem octets_append (a b : Text) (ha : wellEscaped a = true) :
+    pctDecode (a ++ b) = pctDecode a ++ pctDecode b := pctDecode_append a b ha
+
+/-- the octets are never more than the text's characters -/
+theorem octets_length_le (x : Text) : (pctDecode x).length ≤ x.length := pctDecode_length_le x
+
+/-- **every octet string is the view of some component text**: the decoded view is onto, so no
+octet value (NUL, delimiters, ill-formed UTF-8 included) is unreachable by `bytes()` -/
+theorem octets_onto (l : List Nat) (h : ∀ b ∈ l, b < 256) :
+    ∃ x, wellEscaped x = true ∧ pctBytes x = some l := by
+  obtain ⟨w, d⟩ := pctDecode_encodeAll l h
+  exact ⟨pctEncodeAll l, w, by rw [bytes_spec _ w, d]⟩
+
+example : pctEncodeAll [0x00, 0x2F, 0xFF] = [0x25, 0x30, 0x30, 0x25, 0x32, 0x46, 0x25, 0x46, 0x46] := by decide
 
 /-- F13, witnesses: `%FF`.chars() panics; the overlong `%C0%AF` reads as `/`; an encoded
 surrogate panics — and all three are in the finding's class -/
